@@ -1,6 +1,6 @@
 CONSTANT GenKinds = {"rt", "dec", "qw", "shape"}
-CONSTANT QwFull = {"i32", "String", "O4"}
-CONSTANT QwLight = {"i8", "u64", "usize", "f64", "bool", "char", "ID", "O3", "O11"}
+CONSTANT QwFull = {"i32", "O4"}
+CONSTANT QwLight = {"String", "u64", "bool", "char", "f64", "O11"}
 INIT Init
 NEXT Next
 INVARIANT ModelLaws
